@@ -577,14 +577,23 @@ impl CommandBuilder<'_> {
                 } else {
                     &self.extra_args
                 };
-                println!(
-                    "{}",
-                    appended
-                        .iter()
-                        .map(|arg| arg.to_string_lossy())
-                        .collect::<Vec<_>>()
-                        .join(" ")
-                );
+                // Byte for byte: an argument need not be valid UTF-8.
+                let mut line = Vec::new();
+                for (i, arg) in appended.iter().enumerate() {
+                    if i > 0 {
+                        line.push(b' ');
+                    }
+                    line.extend_from_slice(arg.as_encoded_bytes());
+                }
+                line.push(b'\n');
+                let mut stdout = io::stdout().lock();
+                if stdout
+                    .write_all(&line)
+                    .and_then(|()| stdout.flush())
+                    .is_err()
+                {
+                    return Ok(CommandResult::Failure);
+                }
                 Ok(CommandResult::Success)
             }
         }
